@@ -206,7 +206,9 @@ def r16_3(prog, rep):
         obl(rep, f, ifs[0], "R16.3", _is_broadcast(ifs[0].body, (f"len({dm}.index)", f"{dm}.shape[0]", f"len({dm})"), "self.call.args[1].value"),
             "constant trials: broadcast to the row count of the NEW frame", str(cb), f"constant branch is {cb}")
         vb = [unparse(s) for s in ifs[0].orelse]
-        ok = vb[:2] == ["name = self.call.args[1].name", f"values = {dm}[name]"]
+        first2 = ifs[0].orelse[:2]
+        ok = len(first2) == 2 and all(isinstance(s_, ast.Assign) and len(s_.targets) == 1 and isinstance(s_.targets[0], ast.Name) for s_ in first2) \
+            and unparse(first2[0].value) == "self.call.args[1].name" and unparse(first2[1].value) == f"{dm}[{first2[0].targets[0].id}]"
         obl(rep, f, ifs[0], "R16.3", ok, "variable trials: the trials column of the NEW frame, by name", str(vb[:2]), f"variable branch is {vb}")
     en = prog.fn("terms.call.Call.eval_new_data")
     m = {}
